@@ -52,6 +52,8 @@ pub enum Layer {
     TVec(u8, u32),
     /// `matrix<Tk, x, y>`
     TMat(u8, u32, u32),
+    /// `Tk p[len]`
+    TArr(u8, u32),
 }
 
 const SCALARS: &[(ScalarType, &str, &str)] = &[
@@ -252,6 +254,7 @@ fn show_layer(l: Layer) -> String {
         Layer::TVar(k) => format!("t.{}", k),
         Layer::TVec(k, n) => format!("vt.{}.{}", k, n),
         Layer::TMat(k, x, y) => format!("mt.{}.{}.{}", k, x, y),
+        Layer::TArr(k, n) => format!("at.{}.{}", k, n),
     }
 }
 
@@ -270,6 +273,7 @@ fn parse_layer(s: &str) -> Option<Layer> {
         ["t", k] => Some(Layer::TVar(k.parse().ok()?)),
         ["vt", k, n] => Some(Layer::TVec(k.parse().ok()?, n.parse().ok()?)),
         ["mt", k, x, y] => Some(Layer::TMat(k.parse().ok()?, x.parse().ok()?, y.parse().ok()?)),
+        ["at", k, n] => Some(Layer::TArr(k.parse().ok()?, n.parse().ok()?)),
         _ => None,
     }
 }
@@ -398,7 +402,7 @@ impl Real {
             Layer::Other(201) => reg.register_type(ir::TypeLayer::Object(ir::ObjectType::SamplerComparisonState)),
             Layer::Other(i) => reg.register_type(ir::TypeLayer::Struct(ir::StructId(i))),
             // template parameters never reach the conversion routines (they are substituted first)
-            Layer::TVar(_) | Layer::TVec(..) | Layer::TMat(..) => reg.register_type(ir::TypeLayer::Void),
+            Layer::TVar(_) | Layer::TVec(..) | Layer::TMat(..) | Layer::TArr(..) => reg.register_type(ir::TypeLayer::Void),
         };
         if t.mods.0 == 0 {
             base
@@ -422,12 +426,19 @@ impl Real {
 
     /// back from a real type id to the protocol's description
     fn describe(&self, id: ir::TypeId) -> Option<Ty> {
-        describe_in(&self.module, id, &|s| Some(s.0))
+        describe_in(&self.module, id, false)
     }
 }
 
-/// describe a type of `module`; `struct_no` maps a struct to the protocol's `o.<n>`
-fn describe_in(module: &ir::Module, id: ir::TypeId, struct_no: &dyn Fn(ir::StructId) -> Option<u32>) -> Option<Ty> {
+/// describe a type of `module`; `by_name`: structs and enums are the program's `S<n>` / `E<n>` (otherwise the
+/// registry index is the protocol's number)
+fn describe_in(module: &ir::Module, id: ir::TypeId, by_name: bool) -> Option<Ty> {
+    let struct_no = |s: ir::StructId| -> Option<u32> {
+        if by_name { module.struct_registry[s.0 as usize].name.node.strip_prefix('S')?.parse().ok() } else { Some(s.0) }
+    };
+    let enum_no = |e: ir::EnumId| -> Option<u32> {
+        if by_name { module.enum_registry.get_enum_definition(e).name.node.strip_prefix('E')?.parse().ok() } else { Some(e.0) }
+    };
     {
         let reg = &module.type_registry;
         let (base, m) = reg.extract_modifier(id);
@@ -446,9 +457,10 @@ fn describe_in(module: &ir::Module, id: ir::TypeId, struct_no: &dyn Fn(ir::Struc
             ir::TypeLayer::Scalar(s) => Layer::Scalar(sc(s)?),
             ir::TypeLayer::Vector(i, n) => Layer::Vector(inner(i)?, n),
             ir::TypeLayer::Matrix(i, x, y) => Layer::Matrix(inner(i)?, x, y),
-            ir::TypeLayer::Enum(e) => Layer::Enum(e.0),
+            ir::TypeLayer::Enum(e) => Layer::Enum(enum_no(e)?),
             ir::TypeLayer::Struct(s) => Layer::Other(struct_no(s)?),
             ir::TypeLayer::Array(e, Some(len)) if (1..10).contains(&len) => Layer::Other(100 + 10 * inner(e)? as u32 + len as u32),
+            ir::TypeLayer::TemplateParam(id) => Layer::TVar(reg.get_template_type(id).positional_index as u8),
             ir::TypeLayer::Object(ir::ObjectType::SamplerState) => Layer::Other(200),
             ir::TypeLayer::Object(ir::ObjectType::SamplerComparisonState) => Layer::Other(201),
             _ => return None,
@@ -523,6 +535,8 @@ const OBJECTS: &[&str] = &[
     "RWTexture2D<float4>",
     "StructuredBuffer<float4>",
     "RWBuffer<float4>",
+    "RWByteAddressBuffer",
+    "ByteAddressBuffer",
 ];
 
 fn object_type(k: u32, module: &mut ir::Module) -> Option<ir::ObjectType> {
@@ -537,6 +551,8 @@ fn object_type(k: u32, module: &mut ir::Module) -> Option<ir::ObjectType> {
         5 => ir::ObjectType::RWTexture2D(f4),
         6 => ir::ObjectType::StructuredBuffer(f4),
         7 => ir::ObjectType::RWBuffer(f4),
+        8 => ir::ObjectType::RWByteAddressBuffer,
+        9 => ir::ObjectType::ByteAddressBuffer,
         _ => return None,
     })
 }
@@ -563,6 +579,10 @@ fn spell2(t: Ty) -> Option<(String, String)> {
         Layer::TVar(k) => format!("T{}", k),
         Layer::TVec(k, n) => format!("vector<T{}, {}>", k, n),
         Layer::TMat(k, x, y) => format!("matrix<T{}, {}, {}>", k, x, y),
+        Layer::TArr(k, n) => {
+            suffix = format!("[{}]", n);
+            format!("T{}", k)
+        }
         _ => return None,
     };
     match t.mods.0 {
@@ -584,7 +604,7 @@ fn is_numeric(l: Layer) -> bool {
 }
 
 fn is_template_layer(l: Layer) -> bool {
-    matches!(l, Layer::TVar(_) | Layer::TVec(..) | Layer::TMat(..))
+    matches!(l, Layer::TVar(_) | Layer::TVec(..) | Layer::TMat(..) | Layer::TArr(..))
 }
 
 fn is_object_layer(l: Layer) -> bool {
@@ -955,11 +975,6 @@ fn result_struct(module: &ir::Module, ty: ir::TypeId) -> Option<u32> {
     }
 }
 
-/// protocol number of a program's struct: `S<n>` -> n
-fn struct_no_in(module: &ir::Module) -> impl Fn(ir::StructId) -> Option<u32> + '_ {
-    move |sid| module.struct_registry[sid.0 as usize].name.node.strip_prefix('S')?.parse().ok()
-}
-
 /// the overloads the compiler itself contributes for the `A` / `B` paths, in the order they are handed to
 /// `find_function_type`: (function id, candidate with id 1000 + k)
 fn builtin_cands(module: &mut ir::Module, path: &Path) -> Option<Vec<(ir::FunctionId, Cand)>> {
@@ -990,9 +1005,7 @@ fn builtin_cands(module: &mut ir::Module, path: &Path) -> Option<Vec<(ir::Functi
     let mut out = Vec::new();
     for (k, fid) in fids.iter().enumerate() {
         let sig = module.function_registry.get_function_signature(*fid);
-        if !sig.template_params.is_empty() {
-            return None;
-        }
+        let tkinds: Vec<bool> = sig.template_params.iter().map(|t| matches!(t, ir::TemplateParam::Type(_))).collect();
         let mut params = Vec::new();
         for p in &sig.param_types {
             let io = match p.input_modifier {
@@ -1000,9 +1013,9 @@ fn builtin_cands(module: &mut ir::Module, path: &Path) -> Option<Vec<(ir::Functi
                 ir::InputModifier::Out => Io::Out,
                 ir::InputModifier::InOut => Io::InOut,
             };
-            params.push(Param { io, ty: describe_in(module, p.type_id, &|_| None)? });
+            params.push(Param { io, ty: describe_in(module, p.type_id, true)? });
         }
-        out.push((*fid, Cand { id: 1000 + k as u32, non_default: sig.non_default_params, params, tkinds: Vec::new() }));
+        out.push((*fid, Cand { id: 1000 + k as u32, non_default: sig.non_default_params, params, tkinds }));
     }
     Some(out)
 }
@@ -1012,11 +1025,10 @@ fn builtin_cands(module: &mut ir::Module, path: &Path) -> Option<Vec<(ir::Functi
 fn cand_of(module: &ir::Module, fid: ir::FunctionId, builtins: &[(ir::FunctionId, Cand)]) -> Option<(u32, Option<Vec<String>>)> {
     let (parent, targs) = match module.function_registry.get_template_instantiation_data(fid) {
         Some(inst) => {
-            let sn = struct_no_in(module);
             let mut v = Vec::new();
             for a in &inst.template_args {
                 v.push(match a {
-                    ir::TypeOrConstant::Type(t) => show_ty(describe_in(module, *t, &sn)?),
+                    ir::TypeOrConstant::Type(t) => show_ty(describe_in(module, *t, true)?),
                     ir::TypeOrConstant::Constant(_) => "#".to_string(),
                 });
             }
@@ -1198,7 +1210,7 @@ struct Judged {
 }
 
 fn has_vec1(l: Layer) -> bool {
-    matches!(l, Layer::Vector(_, 1) | Layer::TVec(_, 1) | Layer::Matrix(_, 1, _) | Layer::Matrix(_, _, 1))
+    matches!(l, Layer::Vector(_, 1) | Layer::TVec(_, 1) | Layer::Matrix(_, 1, _) | Layer::Matrix(_, _, 1) | Layer::TMat(_, 1, _) | Layer::TMat(_, _, 1))
 }
 
 fn param_ety(p: Param) -> ETy {
@@ -1241,6 +1253,9 @@ fn bind_templates(c: &Cand, args: &[ETy], explicit: &[Option<Ty>]) -> Option<Vec
                 (Layer::TMat(j, x, y), Layer::Matrix(s, x2, y2)) if j as usize == k && x == x2 && y == y2 && a.ty.mods.0 == 0 => {
                     Some(Layer::Scalar(s))
                 }
+                (Layer::TArr(j, n), Layer::Other(i)) if j as usize == k && (100..200).contains(&i) && (i - 100) % 10 == n && a.ty.mods.0 == 0 => {
+                    Some(Layer::Scalar(((i - 100) / 10) as u8))
+                }
                 _ => None,
             };
             if got.is_some() {
@@ -1261,6 +1276,10 @@ fn bind_templates(c: &Cand, args: &[ETy], explicit: &[Option<Ty>]) -> Option<Vec
             },
             Layer::TMat(k, x, y) => match get(k)? {
                 Layer::Scalar(s) => Layer::Matrix(s, x, y),
+                _ => return None,
+            },
+            Layer::TArr(k, n) => match get(k)? {
+                Layer::Scalar(s) if (1..10).contains(&n) => Layer::Other(100 + 10 * s as u32 + n),
                 _ => return None,
             },
             l => l,
@@ -1748,6 +1767,7 @@ fn random_template_set(rng: &mut Rng, hist: &mut Hist) -> (Vec<Cand>, Vec<Ty>) {
         .map(|_| match rng.below(12) {
             0 => off_grid_ty(rng),
             1 => Ty { mods: Mods(0), layer: Layer::Matrix(*rng.pick(GRID_SCALARS), 2, 2) },
+            2 => Ty { mods: Mods(0), layer: Layer::Other(100 + 10 * (*rng.pick(&[2u8, 6u8])) as u32 + 2) },
             _ => grid_ty(rng),
         })
         .collect();
@@ -1776,6 +1796,7 @@ fn random_template_set(rng: &mut Rng, hist: &mut Hist) -> (Vec<Cand>, Vec<Ty>) {
                         (0..=5, _) => Layer::TVar(tk),
                         (6..=8, Layer::Vector(_, n)) => Layer::TVec(tk, if rng.chance(4, 5) { n } else { rng.range(2, 4) as u32 }),
                         (6..=8, Layer::Matrix(_, x, y)) => Layer::TMat(tk, x, y),
+                        (6..=8, Layer::Other(i)) if (100..200).contains(&i) => Layer::TArr(tk, if rng.chance(4, 5) { (i - 100) % 10 } else { 3 }),
                         (6, _) => Layer::TVec(tk, rng.range(2, 4) as u32),
                         _ => Layer::TVar(tk),
                     }
@@ -2090,8 +2111,19 @@ pub fn run(args: &Args, out: &mut Out) {
     let ni = if args.n.is_some() { n / 2 } else if args.thorough() { 3000 } else { 320 };
     let names = intrinsic_names();
     let methods = object_methods();
+    // the overload lists that contain one of the compiler's own templates
+    let mut templated: Vec<Path> = Vec::new();
+    for (k, m) in &methods {
+        templated.push(Path::Object(*k, m.clone()));
+    }
+    for n in &names {
+        templated.push(Path::Intrinsic(n.clone()));
+    }
+    templated.retain(|p| matches!(Runner::builtins(p), Some(b) if b.iter().any(|c| !c.tkinds.is_empty())));
     for i in 0..ni {
-        let path = if i % 4 == 3 && !methods.is_empty() {
+        let path = if i % 8 == 7 && !templated.is_empty() {
+            rng.pick(&templated).clone()
+        } else if i % 4 == 3 && !methods.is_empty() {
             let (k, m) = rng.pick(&methods).clone();
             Path::Object(k, m)
         } else {
@@ -2115,7 +2147,16 @@ pub fn run(args: &Args, out: &mut Out) {
                 let params: Vec<Param> = model
                     .params
                     .iter()
-                    .map(|p| Param { io: p.io, ty: if is_object_layer(p.ty.layer) { p.ty } else { related_ty(&mut rng, p.ty) } })
+                    .map(|p| Param {
+                        io: p.io,
+                        ty: if is_object_layer(p.ty.layer) {
+                            p.ty
+                        } else if is_template_layer(p.ty.layer) {
+                            grid_ty(&mut rng)
+                        } else {
+                            related_ty(&mut rng, p.ty)
+                        },
+                    })
                     .collect();
                 if builtins.iter().any(|b| b.params == params) || users.iter().any(|u| u.params == params) {
                     continue;
@@ -2130,6 +2171,9 @@ pub fn run(args: &Args, out: &mut Out) {
                 .map(|p| {
                     if is_object_layer(p.ty.layer) {
                         ETy { lvalue: true, ty: p.ty }
+                    } else if is_template_layer(p.ty.layer) {
+                        let g = if rng.chance(1, 4) { off_grid_ty(&mut rng) } else { grid_ty(&mut rng) };
+                        random_arg(&mut rng, g)
                     } else if t == 0 {
                         ETy { lvalue: true, ty: p.ty }
                     } else if p.io != Io::In && rng.chance(2, 3) {
@@ -2139,7 +2183,12 @@ pub fn run(args: &Args, out: &mut Out) {
                     }
                 })
                 .collect();
-            r.all_orders(&users, &a, &Opts { with_defs: false, path: path.clone(), targs: Vec::new() }, out);
+            // the compiler's own templates (`T Load<T>(uint)`, `Store(uint, T)`, `DispatchMesh(.., T)`): explicit type arguments
+            let mut targs = Vec::new();
+            if builtins.iter().any(|b| !b.tkinds.is_empty()) && rng.chance(1, 2) {
+                targs.push(Some(if rng.chance(1, 4) { off_grid_ty(&mut rng) } else { grid_ty(&mut rng) }));
+            }
+            r.all_orders(&users, &a, &Opts { with_defs: false, path: path.clone(), targs }, out);
         }
     }
     for (k, v) in &hist.0 {
